@@ -39,7 +39,6 @@ def showChild : Option ChildEnd → String
   | none => "none"
   | some .execd => "execd"
   | some (.reported e) => s!"reported:{e}"
-  | some .silent => "silent"
   | some (.returned _) => "returned"
 
 def parseList (s : String) : Option (List Nat) := (s.splitOn ".").mapM (·.toNat?)
